@@ -88,7 +88,7 @@ theorem consistent_iff_class {W : Colls} {seen : List (Req × Forest)} {cls : St
     rw [hFq.det ⟨e, ti, h1, h2, h3, h4⟩] at hs
     rw [sub_instance_iff_k _ _ hk] at hs
     obtain ⟨tf, htf, hsub⟩ := hs k tq hqk
-    rw [sub_eqKind_left tf tq (eqF_get F k tf heq htf)] at hsub
+    rw [sub_eqK_left tf tq (eqF_get F k tf heq htf)] at hsub
     have : tf = tq := by simpa using hsub
     subst this
     exact hc k tf tg htf hgk
